@@ -162,7 +162,22 @@ class TabWorld:
                 arg.clear()
                 self.stats["caller_reused_its_object"] = self.stats.get("caller_reused_its_object", 0) + 1
         else:
-            arr = np.array([tuple(r) for r in rows], dtype=self._np_dtype(cols, types)).view(np.recarray)
+            dt = self._np_dtype(cols, types)
+            if reuse:
+                # records typed by their own batch, as a reader that types every chunk on its own delivers them: strings
+                # as wide as the longest of the batch, a float column holding whole numbers only as integers
+                spec = []
+                for j, (c, ty) in enumerate(zip(cols, types)):
+                    vals = [r[j] for r in rows]
+                    if ty == "str":
+                        spec.append((c, f"U{max(1, max(len(v) for v in vals))}"))
+                    elif ty == "float" and all(float(v).is_integer() for v in vals):
+                        spec.append((c, "i8"))
+                    else:
+                        spec.append((c, dt[c]))
+                dt = np.dtype(spec)
+                self.stats["records_typed_per_batch"] = self.stats.get("records_typed_per_batch", 0) + 1
+            arr = np.array([tuple(r) for r in rows], dtype=dt).view(np.recarray)
             for i in range(len(arr)):
                 w.append_data(arr[i])
         t["rows"].extend(rows)
@@ -585,10 +600,18 @@ class TabWorld:
                 got = frame_rows(whole, cols)
             elif mode == "chunked":
                 got = []
-                for ch in m.get_chunked_data_iterator(chunk_size=out_chunk, columns=want_cols):
+                for k, ch in enumerate(m.get_chunked_data_iterator(chunk_size=out_chunk, columns=want_cols)):
                     if len(ch) > out_chunk:
                         raise OracleViolation("merge_chunk_size", f"{what}: chunk of {len(ch)} rows for chunk_size {out_chunk}", **sig)
                     got.extend(frame_rows(ch, cols))
+                    if take is not None and k == 0:
+                        # a second iteration over the SAME merged reader object starts (and completes) while the first
+                        # one is alive: a merged reader, like any reader, is a description of data, not a cursor
+                        second = frame_rows(m.read(columns=want_cols), cols)
+                        self.stats["two_live_iterations_of_one_merged_reader"] = self.stats.get("two_live_iterations_of_one_merged_reader", 0) + 1
+                        sig2 = dict(sig, second_iteration=True)
+                        self._check_merge(runs, second, desc, what + " - a read() started while the chunked iteration was alive", sig2, cols=want_cols)
+                take = None
             else:
                 rt = TableType[row_type]
                 got = []
